@@ -244,6 +244,11 @@ func run(r *vk.Runner) {
 	cases = append(cases, gj5s.ReferenceCases()...)
 	cases = append(cases, gj5s.RuleCases()...)
 	cases = append(cases, gj5s.AnnotationCases()...)
+	for _, c := range gj5s.EntityCases(!r.Quick()) {
+		if !strings.HasPrefix(c.ID, "entity:5.") {
+			cases = append(cases, c)
+		}
+	}
 	for _, c := range cases {
 		c := c
 		if r.Stopped() {
